@@ -578,9 +578,21 @@ def decide(pid, cfg, args, workdir, t_start):
     prop_bad = [c for c in cases if not c.prop_ok]
 
     # ---- classify ----------------------------------------------------------------------------
+    # a finding may also be identified by its call site: the harness' own simulator (which sees the
+    # schedule, not the implementation's answer) tags the failure with the call site it goes through,
+    # and the entry matches only while implementation and model still agree on the case - i.e. the
+    # behaviour is exactly the recorded one; anything else at that call site is a new violation
+    known_sites = [(re.compile(k["call_site_verdict"]), k) for k in known if k.get("call_site_verdict")]
+
     def is_known(c):
         k = known_ops.get(c.op)
-        return k if k is not None else None
+        if k is not None:
+            return k
+        if c.corr_ok:
+            for rx, k in known_sites:
+                if rx.search(c.pver):
+                    return k
+        return None
 
     reported = set()
     for c in prop_bad:
